@@ -327,6 +327,13 @@ func MockCheck(prop, tier string) error {
 		var mu sync.Mutex
 		var werr error
 		wsw := Start()
+		if dr := os.Getenv("VERIF_DEBUG_RUN"); dr != "" {
+			// development aid: execute exactly one run index of this seed's batch and show what the worker says
+			out, err := Run(sub.Dir, GoEnv("GOMAXPROCS=1"), b.Harness, "worker", "-prop", prop, "-seed", fmt.Sprint(sd),
+				"-shard", dr, "-nshards", fmt.Sprint(mt.Runs), "-runs", fmt.Sprint(mt.Runs), "-out", prefix, "-tier", tier)
+			fmt.Printf("debug run %s of seed %d: err=%v\n%s\n", dr, sd, err, out)
+			continue
+		}
 		Parallel(nw, nw, func(i int) {
 			out, err := Run(sub.Dir, GoEnv("GOMAXPROCS=1"), b.Harness, "worker", "-prop", prop, "-seed", fmt.Sprint(sd),
 				"-shard", fmt.Sprint(i), "-nshards", fmt.Sprint(nw), "-runs", fmt.Sprint(mt.Runs),
